@@ -1526,6 +1526,15 @@ class LigatureSubst(FormatSwitchingBaseTable):
         self.ligatures = ligatures
         del self.Format  # Don't need this anymore
 
+    def ensureDecompiled(self, recurse=False):
+        super().ensureDecompiled(recurse)
+        if recurse:
+            # the Ligature tables are not reachable through iterSubTables()
+            for ligs in getattr(self, "ligatures", {}).values():
+                if isinstance(ligs, list):
+                    for lig in ligs:
+                        lig.ensureDecompiled(recurse)
+
     @staticmethod
     def _getLigatureSortKey(components):
         # Computes a key for ordering ligatures in a GSUB Type-4 lookup.
